@@ -482,6 +482,140 @@ pub fn key_partitions(t: &T, max_pos: usize) -> Vec<T> {
 
 /// Lock-value variants: every assignment of {10, 20, 500000010} to the `after` leaves and of
 /// {5, 6, 4194309} to the `older` leaves (terms with 2..=3 lock leaves; the base assignment excluded).
+/// Conjunction chains `and_v(v:X1,and_v(v:X2,..,pk(K1)))` whose script is EXACTLY `target` bytes long
+/// under the reference encoder: scripts sitting on the boundaries where a push opcode or a compact
+/// size grows by a byte (75/76, 255/256 for the redeem-script push of P2SH, 252/253 for the script
+/// item of a witness). Two fillings per target: key-heavy (most signatures) and hash-heavy.
+pub fn size_boundary_terms(form: KeyForm, targets: &[usize], max_keys: usize) -> Vec<(usize, T)> {
+    use crate::ast::encode_ref;
+    let env = crate::keys::RefEnc { form };
+    let b = |t: T| Box::new(t);
+    let v = |t: T| T::Verify(b(t));
+    let size = |t: &T| encode_ref(t, &env).len();
+    let pk = |i: usize| T::Check(b(T::PkK(format!("K{}", i))));
+    let pkh = |i: usize| T::Check(b(T::PkH(format!("K{}", i))));
+    let last = pk(1);
+    let s_last = size(&last);
+    let s_pk = size(&v(pk(2)));
+    let s_pkh = size(&v(pkh(2)));
+    let s_sha = size(&v(T::Sha256("H1".into())));
+    // relative locks of one unit with 1-, 2- and 3-byte numbers (value pushes of 1, 2, 3 and 4 bytes)
+    let locks = [T::Older(1), T::Older(17), T::Older(128), T::Older(32768)];
+    let s_lock: Vec<usize> = locks.iter().map(|l| size(&v(l.clone()))).collect();
+    let mut out = vec![];
+    for &target in targets {
+        if target < s_last {
+            continue;
+        }
+        let rest = target - s_last;
+        let mut found = 0;
+        // key-heavy first (n_pk descending), then hash-heavy (n_sha descending)
+        let mut combos: Vec<(usize, usize, usize)> = vec![];
+        for n_pk in (0..max_keys).rev() {
+            for n_pkh in 0..=1usize {
+                for n_sha in 0..=7usize {
+                    combos.push((n_pk, n_pkh, n_sha));
+                }
+            }
+        }
+        let mut heavy = combos.clone();
+        heavy.sort_by_key(|(a, _, c)| (std::cmp::Reverse(*c), *a));
+        for order in [combos, heavy] {
+            'combo: for (n_pk, n_pkh, n_sha) in order {
+                if n_pk + n_pkh + 1 > max_keys {
+                    continue;
+                }
+                let used = n_pk * s_pk + n_pkh * s_pkh + n_sha * s_sha;
+                if used > rest {
+                    continue;
+                }
+                let gap = rest - used;
+                // fill the gap with at most three lock pieces
+                let mut pick: Option<Vec<usize>> = None;
+                if gap == 0 {
+                    pick = Some(vec![]);
+                }
+                for a in 0..4 {
+                    if pick.is_none() && s_lock[a] == gap {
+                        pick = Some(vec![a]);
+                    }
+                    for b2 in a..4 {
+                        if pick.is_none() && s_lock[a] + s_lock[b2] == gap {
+                            pick = Some(vec![a, b2]);
+                        }
+                        for c in b2..4 {
+                            if pick.is_none() && s_lock[a] + s_lock[b2] + s_lock[c] == gap {
+                                pick = Some(vec![a, b2, c]);
+                            }
+                        }
+                    }
+                }
+                let pick = match pick {
+                    Some(p) => p,
+                    None => continue 'combo,
+                };
+                let mut items: Vec<T> = vec![];
+                for i in 0..n_pk {
+                    items.push(pk(2 + i));
+                }
+                for i in 0..n_pkh {
+                    items.push(pkh(2 + n_pk + i));
+                }
+                for _ in 0..n_sha {
+                    items.push(T::Sha256("H1".into()));
+                }
+                for a in pick {
+                    items.push(locks[a].clone());
+                }
+                let mut acc = last.clone();
+                for it in items.into_iter().rev() {
+                    acc = T::AndV(b(v(it)), b(acc));
+                }
+                debug_assert_eq!(size(&acc), target);
+                if size(&acc) == target {
+                    out.push((target, acc));
+                    found += 1;
+                }
+                break;
+            }
+            if found >= 2 {
+                break;
+            }
+        }
+    }
+    out.dedup();
+    out
+}
+
+/// The same term with every sha256 leaf replaced by each other hash kind (the small alphabet has
+/// sha256 only; the satisfier, the planner and the PSBT look-ups have one code path per kind).
+pub fn hash_variants(t: &T) -> Vec<T> {
+    if !t.hashes().iter().any(|(k, _)| *k == 's') {
+        return vec![];
+    }
+    fn rec(t: &mut T, kind: u8) {
+        if let T::Sha256(h) = t {
+            let h = h.clone();
+            *t = match kind {
+                0 => T::Hash256(h),
+                1 => T::Ripemd160(h),
+                _ => T::Hash160(h),
+            };
+            return;
+        }
+        for c in t.children_mut() {
+            rec(c, kind);
+        }
+    }
+    (0..3u8)
+        .map(|k| {
+            let mut t2 = t.clone();
+            rec(&mut t2, k);
+            t2
+        })
+        .collect()
+}
+
 pub fn lock_variants(t: &T) -> Vec<T> {
     let na = t.afters().len();
     let no = t.olders().len();
@@ -741,6 +875,11 @@ pub fn descriptor_models_ctx(u: &Universe, n_seg: usize, n_shwsh: usize, n_leg: 
         for v in lock_variants(t) {
             out.push(D::Wsh(v));
         }
+        if t.size() <= n_part + 1 {
+            for v in hash_variants(t) {
+                out.push(D::Wsh(v));
+            }
+        }
     }
     for t in &b_terms(&u.legacy, n_leg) {
         out.push(D::Sh(t.clone()));
@@ -751,6 +890,11 @@ pub fn descriptor_models_ctx(u: &Universe, n_seg: usize, n_shwsh: usize, n_leg: 
         }
         if t.size() <= n_part + 1 {
             for v in lock_variants(t) {
+                out.push(D::Sh(v));
+            }
+        }
+        if t.size() <= n_part {
+            for v in hash_variants(t) {
                 out.push(D::Sh(v));
             }
         }
@@ -766,6 +910,11 @@ pub fn descriptor_models_ctx(u: &Universe, n_seg: usize, n_shwsh: usize, n_leg: 
         for v in lock_variants(t) {
             out.push(D::Tr("KI".into(), vec![(0, v)]));
         }
+        if t.size() <= n_part + 1 {
+            for v in hash_variants(t) {
+                out.push(D::Tr("KI".into(), vec![(0, v)]));
+            }
+        }
     }
     // guarded fragments: every B term F one node below the bound, as and_v(v:pk(KG),F). The guard
     // makes fragments that are non-malleable but not "safe" on their own (a signature-free branch
@@ -776,6 +925,26 @@ pub fn descriptor_models_ctx(u: &Universe, n_seg: usize, n_shwsh: usize, n_leg: 
     }
     for t in tap.iter().filter(|t| t.size() <= n_tap.max(4) && t.size() + 1 <= n_seg && t.size() >= 2) {
         out.push(D::Tr("KI".into(), vec![(0, guard(t))]));
+    }
+    // scripts exactly on a push-opcode / compact-size boundary (size figures are sums of such terms)
+    for (_, t) in size_boundary_terms(KeyForm::Compressed, &[75, 76, 77, 255, 256, 257], 5) {
+        out.push(D::Sh(t));
+    }
+    for (_, t) in size_boundary_terms(KeyForm::Uncompressed, &[255, 256, 257], 4) {
+        // (exact when the descriptor is instantiated over uncompressed keys)
+        out.push(D::Sh(t));
+    }
+    for (_, t) in size_boundary_terms(KeyForm::Compressed, &[252, 253, 254], 5) {
+        out.push(D::Wsh(t.clone()));
+        out.push(D::ShWsh(t));
+    }
+    for (_, t) in size_boundary_terms(KeyForm::XOnly, &[252, 253, 254], 5) {
+        out.push(D::Tr("KI".into(), vec![(0, t)]));
+    }
+    // P2SH has no MINIMALIF rule: whether a guarded IF-based fragment counts as sane there is the
+    // context's own decision, so the guarded family exists for the legacy universe too
+    for t in b_terms(&u.legacy, n_leg).iter().filter(|t| t.size() + 1 <= n_leg && t.size() >= 2) {
+        out.push(D::Sh(guard(t)));
     }
     // one-hole contexts around every fragment (any base type) of up to n_ctx nodes: terms of up to
     // n_ctx + 8 nodes whose inner fragment is exhaustive
